@@ -1,30 +1,88 @@
-"""C05 — mypyc-compiled code behaves like the interpreted source (work in progress skeleton)."""
-from __future__ import annotations
-import json
-from harness.vlib.core import Ctx
-from concurrent.futures import ThreadPoolExecutor
-from harness.c05 import vt, fr, bind
+"""C05 — mypyc-compiled code behaves like the interpreted source.
 
-MODEL_FILES = ["MypyVerif/Model/VTable.lean", "MypyVerif/Model/ForRange.lean",
-               "MypyVerif/Proofs/VTable.lean", "MypyVerif/Proofs/ForRange.lean"]
+Partial by design (DESIGN §4 C05): the end-to-end claim is only *searched*; proofs cover the logic slices.
+
+1. Lean: Props/C05 —
+     (a) vtable_dispatch_eq_mro_lookup   compute_vtable / specialize_parent_vtable vs Python's MRO lookup
+     (b) forRange_visits_partial (+ not_forRange_visits … with the F12 witnesses)   ForRange vs range()
+     (d) checkBlock_sound                 the verified error-edge checker
+2. Ties, re-checked on every run:
+     (a) vt.py    generated hierarchies through the real front half: ClassIR tables vs the model, entry by entry;
+                  the real tables' dispatch vs CPython's own lookup
+     (b) fr.py    final IR loop skeleton vs ForRange.emit (T); compiled loops vs model vs range() on boundary triples (K)
+     (c) bind.py  compiled functions called from interpreted code and natively: accept/TypeError + bound values vs the
+                  interpreted twin and the Lean model of CPython's binding (Model/PyBind.lean)
+     (d) edges.py every function exported with translate/ir_export.py, every block through ErrEdges.checkBlock
+3. Search: prog.py — generated programs compiled at opt 0 / 3 (thorough: + multi_file, separate) and driven by the same
+   script as the .py; plus fixed probes for the known difference classes.
+A compiled ≠ CPython observation is a concrete failure of C05: KNOWN-FINDING when it matches a listed class exactly,
+VIOLATION otherwise.  A model ≠ implementation difference without such an observation: VIOLATION … no-failing-input-found.
+"""
+from __future__ import annotations
+
+import json
+from concurrent.futures import ThreadPoolExecutor
+
+from harness.vlib.core import Ctx
+from harness.c05 import bind, edges, fr, prog, vt
+
+MODEL_FILES = ["MypyVerif/Model/VTable.lean", "MypyVerif/Model/ForRange.lean", "MypyVerif/Model/ErrEdges.lean",
+               "MypyVerif/Proofs/VTable.lean", "MypyVerif/Proofs/ForRange.lean", "MypyVerif/Proofs/ErrEdges.lean"]
+
 
 def main(ctx: Ctx) -> None:
     ctx.level = "partial"
+    ctx.coverage["rule"] = (
+        "vtable: one case per generated hierarchy (non-trivial: > 2 classes), distinct by source; range: one case per "
+        "(operand types, step, start, stop); binding: one case per (signature, call shape, caller kind); programs: one case "
+        "per (program, build configuration); error edges are counted per function in traces_validated_against_impl.")
     proved = ctx.prove("MypyVerif.Props.C05", MODEL_FILES)
+    ctx.trusted(
+        "models: mypyc/irbuild/vtable.py (compute_vtable, specialize_parent_vtable), ClassIR.get_method_and_class, "
+        "prepare_class_def's base selection, handle_ext_method's glue table; for_helpers.ForRange (init / gen_condition / "
+        "gen_step) with the C semantics of the emitted add and compare; the block shape left by transform/exceptions.py",
+        "C semantics assumed by Model/ForRange.lean: two's-complement wrap of signed add under -fno-strict-overflow; "
+        "CPyTagged_Add / CPyTagged_IsLt_ exact (C15's subject)",
+        "CPython 3.12 as executable reference (interpreted twins, range(), type.__mro__ lookup); Model/PyBind.lean (C12) "
+        "as the model of CPython's argument binding",
+        "translate/ir_export.py (C06's exporter) and harness/c05/edges.py's encoding of blocks; the ERR_MAGIC_OVERLAPPING "
+        "two-block pattern is matched in Python, not by the Lean checker",
+        "the generators: what they do not generate is not validated (distribution printed in the evidence)",
+        "the END-TO-END property is searched, not proved: no model of irbuild / codegen / lib-rt as a whole")
+    ctx.assume("mypy accepts the program and mypyc compiles it (compile-time crashes are reported separately as incidental)",
+               "documented differences are outside: unboxed int/tuple identity, boundary type checks (incl. native-int range "
+               "checks of a loop variable inferred as a native int), early binding; the text of TypeErrors raised for a bad "
+               "call of a compiled function is normalised away")
+    col = edges.Collector()
     with ThreadPoolExecutor(max_workers=6) as pool:
-        #fr.run(ctx, pool)
-        bind.run(ctx, pool)
-    #vt.run(ctx)
+        # phase 1 of each part generates its inputs and submits its C compiles (≤ 6 at a time); the in-process
+        # vtable part runs while they compile; phase 2 drives the compiled modules
+        parts = [fr.run(ctx, pool, col), bind.run(ctx, pool, col), prog.run(ctx, pool, col)]
+        for g in parts:
+            next(g)
+        vt.run(ctx, col)
+        for g in parts:
+            next(g, None)
+    edges.check(ctx, col)
     if not proved and not ctx.violations:
         ctx.violation("Lean development for C05 no longer builds", {"broken": ctx.broken_ties}, found_input=False)
+
 
 def replay(ctx: Ctx, path: str) -> int:
     body = json.load(open(path))
     det = body["replay"].get("detail", body["replay"])
-    if det.get("kind", "").startswith("vtable"):
+    kind = det.get("kind", "")
+    print(body.get("what", ""))
+    if kind.startswith("vtable"):
         vt.replay(ctx, det)
-    elif det.get('kind') == 'range':
+    elif kind == "range":
         fr.replay(ctx, det)
-    elif det.get('kind') == 'bind':
+    elif kind == "bind":
         bind.replay(ctx, det)
+    elif kind == "prog":
+        prog.replay(ctx, det)
+    elif kind == "edges":
+        print(det.get("ir", ""))
+    else:
+        print(json.dumps(det, indent=1)[:4000])
     return 0
